@@ -38,7 +38,7 @@ int _locate_peak(const dsplib::arr_real& spec, int idx) {
 
 int _left_descent(const dsplib::arr_real& spec, int idx) {
     int lpos = max(idx, 0);
-    while ((lpos > 0) && (spec[lpos - 1] < spec[lpos])) {
+    while ((lpos > 0) && (spec[lpos - 1] <= spec[lpos])) {
         --lpos;
     }
     return lpos;
@@ -47,7 +47,7 @@ int _left_descent(const dsplib::arr_real& spec, int idx) {
 int _right_descent(const dsplib::arr_real& spec, int idx) {
     const int n = spec.size();
     int rpos = min(idx, n - 1);
-    while ((rpos < n - 1) && (spec[rpos] > spec[rpos + 1])) {
+    while ((rpos < n - 1) && (spec[rpos] >= spec[rpos + 1])) {
         ++rpos;
     }
     return rpos;
